@@ -6,7 +6,7 @@ pub open spec fn smin(a: int, b: int) -> int { if a <= b { a } else { b } }
 
 pub open spec fn rem_of(len: nat, pos: nat) -> nat { if pos <= len { (len - pos) as nat } else { 0 } }
 
-pub trait VStream: Sized {
+pub trait VRead: Sized {
     /// immutable content of the stream
     spec fn data(&self) -> Seq<u8>;
     /// cursor (may exceed data().len(), like std::io::Cursor)
@@ -32,7 +32,10 @@ pub trait VStream: Sized {
             //@label - vstream.read.err_keeps_pos
             r is Err ==> final(self).pos() == old(self).pos(),
     ;
+}
 
+/// a byte source that can also seek (std::io::Read + Seek)
+pub trait VStream: VRead {
     /// Seek::seek
     fn seek(&mut self, to: std::io::SeekFrom) -> (r: std::io::Result<u64>)
         requires old(self).wf(),
@@ -58,14 +61,14 @@ pub trait VStream: Sized {
     ;
 }
 
-pub open spec fn slen<S: VStream>(s: &S) -> nat { s.data().len() }
-pub open spec fn srem<S: VStream>(s: &S) -> nat { rem_of(s.data().len(), s.pos()) }
+pub open spec fn slen<S: VRead>(s: &S) -> nat { s.data().len() }
+pub open spec fn srem<S: VRead>(s: &S) -> nat { rem_of(s.data().len(), s.pos()) }
 
 // (&mut X).take(N).read_to_end(&mut V)   [rewrite R8]  -- std's documented loop: reads until N bytes were
 // obtained or the source reports end of stream (Ok(0)); retries on Interrupted; on any other error returns it
 // with the bytes obtained so far appended.
 #[verifier::external_body]
-pub fn vio_read_to_end_take<S: VStream>(s: &mut S, limit: u64, v: &mut Vec<u8>) -> (r: std::io::Result<usize>)
+pub fn vio_read_to_end_take<S: VRead>(s: &mut S, limit: u64, v: &mut Vec<u8>) -> (r: std::io::Result<usize>)
     requires old(s).wf(),
     ensures final(s).wf(), final(s).data() == old(s).data(),
         r is Ok ==> r->Ok_0 == smin(limit as int, srem(old(s)) as int)
@@ -79,7 +82,7 @@ pub fn vio_read_to_end_take<S: VStream>(s: &mut S, limit: u64, v: &mut Vec<u8>) 
 
 // io::copy(&mut (&mut X).take(N), &mut io::sink())   [rewrite R8]
 #[verifier::external_body]
-pub fn vio_skip_take<S: VStream>(s: &mut S, limit: u64) -> (r: std::io::Result<u64>)
+pub fn vio_skip_take<S: VRead>(s: &mut S, limit: u64) -> (r: std::io::Result<u64>)
     requires old(s).wf(),
     ensures final(s).wf(), final(s).data() == old(s).data(),
         r is Ok ==> r->Ok_0 == smin(limit as int, srem(old(s)) as int) && final(s).pos() == old(s).pos() + r->Ok_0,
@@ -124,7 +127,7 @@ pub open spec fn le_u32(b: Seq<u8>) -> u32 { (b[0] as u32) | ((b[1] as u32) << 8
 pub uninterp spec fn le_u64(b: Seq<u8>) -> u64;
 
 #[verifier::external_body]
-pub fn vio_read_exact<S: VStream>(s: &mut S, buf: &mut [u8]) -> (r: std::io::Result<()>)
+pub fn vio_read_exact<S: VRead>(s: &mut S, buf: &mut [u8]) -> (r: std::io::Result<()>)
     requires old(s).wf(),
     ensures final(s).wf(), final(s).data() == old(s).data(), final(buf)@.len() == old(buf)@.len(),
         r is Ok ==> srem(old(s)) >= old(buf)@.len() && final(s).pos() == old(s).pos() + old(buf)@.len()
@@ -134,7 +137,7 @@ pub fn vio_read_exact<S: VStream>(s: &mut S, buf: &mut [u8]) -> (r: std::io::Res
 { unimplemented!() }
 
 #[verifier::external_body]
-pub fn vio_read_u8<S: VStream>(s: &mut S) -> (r: std::io::Result<u8>)
+pub fn vio_read_u8<S: VRead>(s: &mut S) -> (r: std::io::Result<u8>)
     requires old(s).wf(),
     ensures final(s).wf(), final(s).data() == old(s).data(),
         r is Ok ==> srem(old(s)) >= 1 && final(s).pos() == old(s).pos() + 1 && r->Ok_0 == old(s).data()[old(s).pos() as int],
@@ -143,7 +146,7 @@ pub fn vio_read_u8<S: VStream>(s: &mut S) -> (r: std::io::Result<u8>)
 { unimplemented!() }
 
 #[verifier::external_body]
-pub fn vio_read_u32_le<S: VStream>(s: &mut S) -> (r: std::io::Result<u32>)
+pub fn vio_read_u32_le<S: VRead>(s: &mut S) -> (r: std::io::Result<u32>)
     requires old(s).wf(),
     ensures final(s).wf(), final(s).data() == old(s).data(),
         r is Ok ==> srem(old(s)) >= 4 && final(s).pos() == old(s).pos() + 4 && r->Ok_0 == le_u32(old(s).data().subrange(old(s).pos() as int, old(s).pos() + 4int)),
@@ -152,7 +155,7 @@ pub fn vio_read_u32_le<S: VStream>(s: &mut S) -> (r: std::io::Result<u32>)
 { unimplemented!() }
 
 #[verifier::external_body]
-pub fn vio_read_u64_le<S: VStream>(s: &mut S) -> (r: std::io::Result<u64>)
+pub fn vio_read_u64_le<S: VRead>(s: &mut S) -> (r: std::io::Result<u64>)
     requires old(s).wf(),
     ensures final(s).wf(), final(s).data() == old(s).data(),
         r is Ok ==> srem(old(s)) >= 8 && final(s).pos() == old(s).pos() + 8 && r->Ok_0 == le_u64(old(s).data().subrange(old(s).pos() as int, old(s).pos() + 8int)),
